@@ -11,7 +11,7 @@
    What is false of the code and proved false of the model: with several locations per target sharing an inner
    location the ledger exceeds the capacity (C10_shared_inner_refuted = known finding). *)
 From Coq Require Import List Bool ZArith NArith.
-From SF Require Import Base.Str Hardware.Model Hardware.Proofs Sched.Model Sched.Proofs Sched.History Sched.Slots Sched.Witness Sched.Examples.
+From SF Require Import Base.Str Hardware.Model Hardware.Proofs Sched.Model Sched.Proofs Sched.History Sched.Slots Sched.Stacked Sched.StackedHist Sched.Witness Sched.Examples.
 Import ListNotations.
 Local Open Scope string_scope. Local Open Scope list_scope. Local Open Scope Z_scope.
 
@@ -104,6 +104,48 @@ Proof.
   eexists. split; [vm_compute; reflexivity|]. vm_compute. repeat split; reflexivity.
 Qed.
 
+(* ---------------------------------------------------------------------------------------------------------
+   C10_capacity_stacked — the same over histories whose locations are CHAINS of stacked levels (Sched/StackedHist.v).
+   Domain, all in the hypotheses: one location per allocation; every candidate is a non-empty chain of levels of [locs]
+   with pairwise distinct names and the resolver supplies a requirement for every level; lifecycle as in C10_capacity;
+   and every release is COHERENT ([coherent], part of [conformant2]): at every level of the chain the hardware released
+   (the allocation's own at the first level; below it the re-bound hardware, an input of the event) has the measures and
+   mount points of the hardware that was reserved at that level, and du reports no more than it.  Inner levels may be
+   reached through several outer locations.  [reserved2 st R nm x] sums, over fireable/running jobs, what each reserved
+   on the level named nm ([R] = ghost record of the per-level reservations, [reservations] folds it along the history).
+   Conclusion for every level (outer or inner) with declared hardware, after every prefix: reserved = ledger - measured
+   residue, residue = 0 on cores/memory and >= 0 per mount point, reserved <= ledger <= capacity on every measure.
+   Boundary: C10_shared_inner_refuted / C11_shared_inner_leak_refuted — two outer locations in ONE candidate list
+   sharing an inner level make the reservation of the inner level the doubled requirement while the release uses the
+   single one (incoherent), and 2 locations per target are validated separately. *)
+Theorem C10_capacity_stacked : forall locs,
+  (forall l1 l2, In l1 locs -> In l2 locs -> lv_name l1 = lv_name l2 -> l1 = l2) ->
+  (forall l cap, In l locs -> lv_cap l = Some cap -> wfr cap /\ In "/" (mounts cap)) ->
+  forall p q st l cap,
+  conformant2 locs init (fun _ => []) (p ++ q) -> run init p = Ok st -> In l locs -> lv_cap l = Some cap ->
+  let G := measured2 init (fun _ => []) p g0 in
+  let R := reservations init (fun _ => []) p in
+  let led := mu_o (lookup (lv_name l) (hwloc st)) in
+  (forall x, reserved2 st R (lv_name l) x = led x - G (lv_name l) x) /\
+  G (lv_name l) MC = 0 /\ G (lv_name l) MM = 0 /\ (forall m, 0 <= G (lv_name l) (MS m)) /\
+  (forall x, reserved2 st R (lv_name l) x <= led x) /\ (forall x, led x <= mu cap x) /\
+  (forall x, reserved2 st R (lv_name l) x <= mu cap x).
+Proof. exact capacity_stacked. Qed.
+
+(* hypotheses met: container c0 (4 cores, 8 MB, 10 on "/") stacked on host h0 (16/16/20); schedule, RUNNING twice,
+   COMPLETED (du 3 on c0, 1 on h0), COMPLETED again; while the job runs both levels hold its reservation *)
+Example C10_capacity_stacked_hypotheses_met :
+  (forall l1 l2, In l1 st_locs -> In l2 st_locs -> lv_name l1 = lv_name l2 -> l1 = l2) /\
+  (forall l cap, In l st_locs -> lv_cap l = Some cap -> wfr cap /\ In "/" (mounts cap)) /\
+  conformant2 st_locs init (fun _ => []) st_history /\
+  (exists st, run init (firstn 2 st_history) = Ok st /\
+     reserved2 st (reservations init (fun _ => []) (firstn 2 st_history)) "c0" MC = 2 /\
+     reserved2 st (reservations init (fun _ => []) (firstn 2 st_history)) "h0" (MS "/") = 6).
+Proof.
+  split; [exact st_names|]. split; [exact st_caps|]. split; [exact st_conformant|].
+  eexists. split; [vm_compute; reflexivity|]. vm_compute. split; reflexivity.
+Qed.
+
 (* known finding: 2 locations per target, both stacked on host/h0 (memory 16); the job needs memory 8 *)
 Theorem C10_shared_inner_refuted :
   exists st' h, attempt init "/s0/2" shared_cands (shared_reqs 3 8) 2 [] = Ok (st', ["d0l0"; "d0l1"], true) /\
@@ -125,4 +167,5 @@ Print Assumptions C10_reserve_is_ledger_plus_requirement.
 Print Assumptions C10_valid_slots.
 Print Assumptions C10_capacity.
 Print Assumptions C10_capacity_slots.
+Print Assumptions C10_capacity_stacked.
 Print Assumptions C10_shared_inner_refuted.
